@@ -1091,6 +1091,36 @@ func flowsFrom(v ssa.Value, src func(ssa.Value) bool) bool {
 	return rec(v)
 }
 
+// literalOf: the function literal a called value denotes, also when it is held in a local that is
+// assigned once, possibly a local of the enclosing function seen through a free variable
+// (`finish := func() {…}; go func() { defer finish(); … }()`).
+func literalOf(v ssa.Value) *ssa.Function {
+	if f := closureOf(v); f != nil {
+		return f
+	}
+	if f := closureOf(resolveOnceV(v)); f != nil {
+		return f
+	}
+	if ld, isL := isLoad(v); isL {
+		if fv, isFV := ld.X.(*ssa.FreeVar); isFV {
+			if al, isAl := bindingOf(fv).(*ssa.Alloc); isAl {
+				var stored ssa.Value
+				ns := 0
+				for _, r := range refs(al) {
+					if st, isSt := r.(*ssa.Store); isSt && st.Addr == ssa.Value(al) {
+						stored = st.Val
+						ns++
+					}
+				}
+				if ns == 1 {
+					return closureOf(stored)
+				}
+			}
+		}
+	}
+	return nil
+}
+
 // closureOf returns the function literal a value denotes (MakeClosure or bare *ssa.Function).
 func closureOf(v ssa.Value) *ssa.Function {
 	switch x := strip(v).(type) {
